@@ -72,7 +72,7 @@ func newISM2400Band(repeaterCompatible bool) (Band, error) {
 				2: {2, 1, 0, 0, 0, 0},
 				3: {3, 2, 1, 0, 0, 0},
 				4: {4, 3, 2, 1, 0, 0},
-				5: {5, 4, 2, 2, 1, 0},
+				5: {5, 4, 3, 2, 1, 0},
 				6: {6, 5, 4, 3, 2, 1},
 				7: {7, 6, 5, 4, 3, 2},
 			},
@@ -120,7 +120,7 @@ func newISM2400Band(repeaterCompatible bool) (Band, error) {
 				latest: map[int]MaxPayloadSize{
 					0: {M: 59, N: 51},
 					1: {M: 123, N: 115},
-					2: {M: 248, N: 220},
+					2: {M: 248, N: 240},
 					3: {M: 248, N: 240},
 					4: {M: 248, N: 240},
 					5: {M: 248, N: 240},
